@@ -57,4 +57,5 @@ c4bdc93 C12
 318b915 C20
 3a4230f C11
 80a8a29 C11
+b33e5d2 C15
 LIST
